@@ -15,6 +15,42 @@ Proof.
 Qed.
 Print Assumptions C07_boundary_independence.
 
+(** * Look-ahead insensitivity of the lexer (LexerLookahead.v): what a token is does not depend on
+    WHICH blank follows it, nor on what comes after that blank; a blank gap can be replaced by
+    any other blank gap without changing the non-whitespace token sequence.  Proved for every
+    dialect table regenerated from the running crate except Redshift, whose delimited-identifier
+    opener looks past blanks (refuted below on the real Redshift table: the finding
+    redshift:needs-identifier-start of C06). *)
+Require Import SqlV.LexerLookahead SqlV.LexerLookaheadInst SqlVGen.DialectTables.
+
+Theorem C07_token_lookahead : forall (d : Lexer.dialect) unesc c b r b' r' t,
+  In d DialectTables.all_dialects -> piq_always d = true -> blank b -> blank b' -> not_ws t ->
+  next_token d std_uni unesc (c ++ b :: r) = Ok (Some (t, b :: r)) ->
+  next_token d std_uni unesc (c ++ b' :: r') = Ok (Some (t, b' :: r')).
+Proof. exact lookahead_blank_dialects. Qed.
+Print Assumptions C07_token_lookahead.
+
+Theorem C07_blank_gap : forall (d : Lexer.dialect) unesc a w w' rest tsa ts,
+  In d DialectTables.all_dialects -> piq_always d = true ->
+  blanks w -> blanks w' -> w <> [] -> w' <> [] ->
+  tokenize d std_uni unesc a = LexOk tsa -> ~ ends_with_line (map fst tsa) ->
+  tokenize d std_uni unesc (a ++ w ++ rest) = LexOk ts ->
+  exists ts', tokenize d std_uni unesc (a ++ w' ++ rest) = LexOk ts' /\
+              nows (map fst ts') = nows (map fst ts).
+Proof. exact tokenize_blank_gap_dialects. Qed.
+Print Assumptions C07_blank_gap.
+
+Theorem C07_lookahead_redshift_refuted :
+  blank_neutralb dl_redshift std_uni = true /\ probe dl_redshift std_uni [cLBR] = true /\
+  next_token dl_redshift std_uni true ([cLBR] ++ cSP :: [49; cRBR]) = Ok (Some (TFix FLBracket, cSP :: [49; cRBR])) /\
+  next_token dl_redshift std_uni true ([cLBR] ++ cSP :: [120; cRBR]) = Ok (Some (TWord [cSP; 120] (Some cLBR), [])).
+Proof. exact redshift_bracket_refuted. Qed.
+
+(** which generated dialects the two theorems cover *)
+Example C07_lookahead_coverage :
+  map piq_always DialectTables.all_dialects = [true; true; true; true; true; true; true; true; true; true; false; true; true].
+Proof. exact probing_dialects. Qed.
+
 (** Parser level (proof by interface): every program built from the whitespace-skipping
     cursor interface — in particular the statement loop over any such statement parser —
     gives related results (token-for-token equal values; errors equal up to the position text)
